@@ -31,6 +31,9 @@ CLAIMS = {
  "C03": dict(cat="model_checking", ref="3 (C03)", technique="TLA+ writer/reader protocol MulgridFile.tla (header flags, keyword dispatch, blank-line sentinels, scale tags on coordinates) model-checked by TLC over 72 header combinations x a family of bodies built through the public API; every TLC document instantiated, written with a record-level trace, read back and rewritten by the real mulgrid",
    text="TLC checks that the reader inverts the writer for every header combination and body (sections present or absent, 3/4/5-node columns, specified centres, surfaces, wells), that the unit written is the geometry's and coordinates are re-read at the right scale, that every record is consumed and that the second stream equals the first; the pinned header handling is shown to fail (negative configuration). The same documents, random rectangular geometries with all flags/feet/surfaces/wells and the shipped geometries (as-is, rotated, refined, reduced) are cycled through the real code: header options, nodes, columns, connections, layers, surfaces, wells, block and connection name lists compared, second file byte-identical.",
    note="Coordinates compared at the decimals the format carries, in the file's unit; DMPlex ordering only for 3/4-node columns (library restriction); names right-justified."),
+ "C17": dict(cat="model_checking", ref="3 (C17)", technique="TLA+ module Naming.tla: bijective/positional numeration with capacities and an inverse (TLC walks every number up to and past each capacity), and the (A3,I2) quirk as functions on five-character class strings (TLC checks all 3125); every enumerated number / class string replayed through the real name generators and fix/unfix functions; geometries built at capacity +-1",
+   text="TLC checks that each generated name has an inverse (hence all are distinct), that a name is too long exactly above the capacity, the two surface-layer numbers, and on all five-character class strings that repair is idempotent, un-repair equals the simulator's print form and one write/read cycle reaches a fixed point. Every number and class string is replayed through column/node/layer_name_from_number (both justifications, several alphabets, with and without spaces), fix_blockname, unfix_blockname, fix_block_mapping; rectangular geometries at and one past every capacity must give distinct five-character block names whose column/layer parts invert block_name, or raise NamingConventionError.",
+   note="Quick tier compares generated letter names up to 2200 and checks only the error rule near 18278; thorough walks the full range and builds the 18278/18279-column geometries."),
 }
 REASONS_PENDING = "check not built yet in this revision (see DESIGN.md section 6 build order); the specification family applies"
 NA = {
